@@ -230,12 +230,34 @@ def tree_tuple(t, index_of):
     return ("leaf", t.symbol, index_of.get(id(t), -1))
 
 
-def real_parse(parser, tokens, sym, code):
-    """(canonical line, ParseResult | None, exception | None)"""
+class ParseTimeout(Exception):
+    """The real `Parser.parse` did not return within the time limit (it loops)."""
+
+
+def _parse_alarm(signum, frame):
+    raise ParseTimeout()
+
+
+def real_parse(parser, tokens, sym, code, limit=None):
+    """(canonical line, ParseResult | None, exception | None).  `limit` (seconds, main thread
+    only): a parse that does not return in time is reported as ParseTimeout — a table with a
+    reduction cycle makes `parse` push entries forever (≈ 100 MB/s), which must end the case,
+    not the run."""
+    import signal
+    old = None
+    if limit:
+        old = signal.signal(signal.SIGALRM, _parse_alarm)
+        signal.setitimer(signal.ITIMER_REAL, limit)
     try:
         res = parser.parse(tokens)
+    except ParseTimeout as e:
+        return "internal ParseTimeout", None, e
     except Exception as e:  # any exception from lr1 is itself an observation
         return "internal %s" % type(e).__name__, None, e
+    finally:
+        if limit:
+            signal.setitimer(signal.ITIMER_REAL, 0)
+            signal.signal(signal.SIGALRM, old)
     index_of = dict((id(t), i) for i, t in enumerate(tokens))
     if res.error is None:
         return "accept " + render_tree(res.parse_tree, index_of, sym), res, None
